@@ -406,6 +406,10 @@ def inline_region(fx, root_key, depth=4, policy=None, desugar=True):
             if n in ("std::iter::Iterator::cloned", "std::iter::Iterator::copied") and len(node["args"]) == 1 and stages is not None:
                 op = node["args"][0]        # element-wise copies: the element's provenance is unchanged
                 continue
+            if n == "std::iter::Iterator::take" and len(node["args"]) == 2:
+                stages.append(("take", None, None, node))
+                op = node["args"][0]
+                continue
             if n in ("std::iter::Iterator::map", "std::iter::Iterator::filter", "std::iter::Iterator::filter_map") and len(node["args"]) == 2:
                 co = _closure_of(fn, node["args"][1])
                 if co is None or co[0]["key"] in stack or co[0]["arg_count"] != (2 if co[1] is not None else 1):
@@ -420,13 +424,18 @@ def inline_region(fx, root_key, depth=4, policy=None, desugar=True):
     def _desugar(fn, bi, nb, t, loff, boff, stack, d, inst):
         name = callee_name(t)
         kind = _DESUGAR[name]
-        if len(t["args"]) != (1 if kind == "collect" else (3 if kind == "map_or" else 2)):
+        if len(t["args"]) != (1 if kind in ("collect", "count") else (3 if kind == "map_or" else 2)):
             return False
         ext_stages = None
         coll_res = False
         _COLLS = (("BTreeSet<", "std::collections::BTreeSet"), ("HashSet<", "std::collections::HashSet"), ("Vec<", "std::vec::Vec"),
                   ("BTreeMap<", "std::collections::BTreeMap"), ("HashMap<", "std::collections::HashMap"))
-        if kind == "collect":
+        if kind == "count":
+            ext_stages = _stages(fn, fn["blocks"][bi]["term"]["args"][0], stack)
+            if not any(sk in ("map", "filter", "filter_map") for (sk, _c, _e, _n) in ext_stages[0]):
+                return False
+            callee, env = None, None
+        elif kind == "collect":
             # iter.map(f).filter(p).collect::<C>() / ::<Result<C, E>>(): a loop filling a fresh collection
             gens = [g for g in t.get("generics", []) if not g.startswith("'")]
             tgt = gens[-1] if gens else ""
@@ -579,7 +588,7 @@ def inline_region(fx, root_key, depth=4, policy=None, desugar=True):
             blk["term"] = {"k": "switch", "discr": mv(l), "discr_ty": ty, "arms": arms, "otherwise": otherwise, "at": at, "exp": None,
                            "synthetic": "desugar"}
 
-        if kind in ("for_each", "any", "all", "find", "try_for_each", "extend", "collect"):
+        if kind in ("for_each", "any", "all", "find", "try_for_each", "extend", "collect", "count"):
             own = {callee["key"]} if callee is not None else set()
             stages, src_op = ext_stages if ext_stages is not None else _stages(fn, fn["blocks"][bi]["term"]["args"][0], stack | own)
             if stages:
@@ -592,7 +601,7 @@ def inline_region(fx, root_key, depth=4, policy=None, desugar=True):
             elif kind == "extend":
                 src_op = _shift(src_op, loff, boff)
                 arg_ty = (t.get("arg_tys") or ["_", "_"])[1]
-            elif kind == "collect":
+            elif kind in ("collect", "count"):
                 src_op = _shift(src_op, loff, boff)
             else:
                 src_op = t["args"][0]
@@ -602,16 +611,33 @@ def inline_region(fx, root_key, depth=4, policy=None, desugar=True):
             tmp = local(OPT + "<_>")
             dl = local("isize")
             H, S, Bd, A, X = block(), block(), block(), block(), block()
+            def binop(op_, a_, b_):
+                return {"k": "binop", "op": op_, "a": a_, "b": b_}
+            cusize = lambda v: {"const": {"ty": "usize", "int": v, "repr": "%d_usize" % v}}
+            take_stage = [st_ for st_ in stages if st_[0] == "take"]
+            H0 = H
+            if take_stage:
+                # `take(n)`: the source is no longer polled once n elements have passed the take stage
+                tk = local("usize")
+                assign(nb, tk, use(cusize(0)))
+                n_op = _shift(take_stage[0][3]["args"][1], loff, boff)
+                H0 = block()
+                tcmp = local("bool")
+                assign(H0, tcmp, binop("Eq", {"copy": {"l": tk, "p": []}}, n_op))
+                switch(H0, tcmp, "bool", [[0, H]], X)
+            if kind == "count":
+                cnt = local("usize", "count")
+                assign(nb, cnt, use(cusize(0)))
             if kind == "collect":
                 coll = local(inner if not coll_res else inner.rsplit(",", 1)[0])
                 nt0 = {k2: v for k2, v in t.items()}
                 nt0.update({"callee": cty + "::new", "callee_full": cty + "::new", "callee_crate": "alloc", "generics": [], "trait": None,
                             "resolved": None, "resolved_full": None, "resolved_key": None, "callee_key": None, "resolved_kind": None, "args": [],
-                            "arg_tys": [], "dst": {"l": coll, "p": []}, "target": H, "unwind": None, "synthetic": "desugared-call",
+                            "arg_tys": [], "dst": {"l": coll, "p": []}, "target": H0, "unwind": None, "synthetic": "desugared-call",
                             "desugared_from": name})
                 nb["term"] = nt0
             else:
-                nb["term"] = {"k": "goto", "target": H, "at": at, "exp": None, "synthetic": "desugared-call", "callee": t.get("callee")}
+                nb["term"] = {"k": "goto", "target": H0, "at": at, "exp": None, "synthetic": "desugared-call", "callee": t.get("callee")}
             assign(H, r, {"k": "ref", "mut": True, "place": {"l": it, "p": []}})
             nt = {k2: v for k2, v in t.items()}
             nt.update({"callee": "std::iter::Iterator::next", "callee_full": "<%s as std::iter::Iterator>::next" % arg_ty, "callee_crate": "core",
@@ -626,6 +652,9 @@ def inline_region(fx, root_key, depth=4, policy=None, desugar=True):
             cur_ty = "_"
             cur_elem = {"move": variant_field(tmp, "Some", 1, OPT)}
             for si, (skind, scallee, senv, snode) in enumerate(stages):
+                if skind == "take":
+                    assign(cur_blk, tk, binop("Add", {"copy": {"l": tk, "p": []}}, cusize(1)))
+                    continue
                 s_off = len(new["locals"])
                 for l in scallee["locals"]:
                     new["locals"].append(dict(l))
@@ -651,7 +680,7 @@ def inline_region(fx, root_key, depth=4, policy=None, desugar=True):
                     goto(cur_blk, scb)
                     dfm = local("isize")
                     assign(tst, dfm, {"k": "discr", "place": {"l": sret, "p": []}, "pty": OPT + "<_>", "adt": OPT, "variants": OPT_V})
-                    switch(tst, dfm, "isize", [[1, nxt]], H)
+                    switch(tst, dfm, "isize", [[1, nxt]], H0)
                     cur_elem = {"move": variant_field(sret, "Some", 1, OPT)}
                     cur_ty = "_"
                 else:   # filter: the predicate sees a reference; a rejected element goes back to the header
@@ -661,10 +690,16 @@ def inline_region(fx, root_key, depth=4, policy=None, desugar=True):
                     tst = block()
                     scb = emit(scallee, s_off, stack | own | {scallee["key"]}, (d if scallee["kind"] == "Closure" else d - 1), ret_dst={"l": sret, "p": []}, ret_target=tst, inst=sinst)
                     goto(cur_blk, scb)
-                    switch(tst, sret, "bool", [[0, H]], nxt)
+                    switch(tst, sret, "bool", [[0, H0]], nxt)
                     cur_elem = mv(held)
                 new["inlined"].append({"callee": scallee["path"], "at_block": boff + bi, "inst": sinst, "site": at, "desugared": "adaptor " + skind})
                 cur_blk = nxt
+            if kind == "count":
+                assign(cur_blk, cnt, binop("Add", {"copy": {"l": cnt, "p": []}}, cusize(1)))
+                goto(cur_blk, H0)
+                assign(X, dst, use({"copy": {"l": cnt, "p": []}}))
+                goto(X, target)
+                return True
             if kind == "collect":
                 el = local(cur_ty)
                 assign(cur_blk, el, use(cur_elem))
@@ -695,7 +730,7 @@ def inline_region(fx, root_key, depth=4, policy=None, desugar=True):
                 it_.update({"callee": ins, "callee_full": ins, "callee_crate": "alloc", "generics": [], "trait": None, "resolved": None,
                             "resolved_full": None, "resolved_key": None, "callee_key": None, "resolved_kind": None, "args": args,
                             "arg_tys": ["&mut " + cty_full] + [(elem_tys[j] if j < len(elem_tys) else "_") for j in range(len(args) - 1)],
-                            "dst": {"l": scratch, "p": []}, "target": H, "unwind": None, "synthetic": "desugar", "desugared_from": name})
+                            "dst": {"l": scratch, "p": []}, "target": H0, "unwind": None, "synthetic": "desugar", "desugared_from": name})
                 new["blocks"][cur_blk]["term"] = it_
                 if coll_res:
                     assign(X, dst, adt(RES, "Ok", [mv(coll)]))
@@ -716,7 +751,7 @@ def inline_region(fx, root_key, depth=4, policy=None, desugar=True):
                 it_.update({"callee": ins, "callee_full": ins, "callee_crate": "alloc", "generics": [], "trait": None, "resolved": None,
                             "resolved_full": None, "resolved_key": None, "callee_key": None, "resolved_kind": None, "args": args,
                             "arg_tys": [(t.get("arg_tys") or ["_"])[0]] + ["_"] * (len(args) - 1), "dst": {"l": scratch, "p": []},
-                            "target": H, "unwind": None, "synthetic": "desugar", "desugared_from": name})
+                            "target": H0, "unwind": None, "synthetic": "desugar", "desugared_from": name})
                 new["blocks"][cur_blk]["term"] = it_
                 assign(X, dst, unit)
                 goto(X, target)
@@ -733,12 +768,12 @@ def inline_region(fx, root_key, depth=4, policy=None, desugar=True):
             cb = emit_callee({"l": rr, "p": []}, A)
             goto(cur_blk, cb)
             if kind == "for_each":
-                goto(A, H)
+                goto(A, H0)
                 assign(X, dst, unit)
                 goto(X, target)
             elif kind in ("any", "find"):
                 T = block()
-                switch(A, rr, "bool", [[0, H]], T)
+                switch(A, rr, "bool", [[0, H0]], T)
                 if kind == "any":
                     assign(T, dst, const_bool(True))
                     assign(X, dst, const_bool(False))
@@ -749,7 +784,7 @@ def inline_region(fx, root_key, depth=4, policy=None, desugar=True):
                 goto(X, target)
             elif kind == "all":
                 F = block()
-                switch(A, rr, "bool", [[0, F]], H)
+                switch(A, rr, "bool", [[0, F]], H0)
                 assign(F, dst, const_bool(False))
                 assign(X, dst, const_bool(True))
                 goto(F, target)
@@ -759,7 +794,7 @@ def inline_region(fx, root_key, depth=4, policy=None, desugar=True):
                 d2 = local("isize")
                 T = block()
                 assign(A, d2, {"k": "discr", "place": {"l": rr, "p": []}, "pty": rty, "adt": RES if is_res else OPT, "variants": RES_V if is_res else OPT_V})
-                switch(A, d2, "isize", [[0 if is_res else 1, H]], T)
+                switch(A, d2, "isize", [[0 if is_res else 1, H0]], T)
                 assign(T, dst, use(mv(rr)))
                 goto(T, target)
                 u = local("()")
@@ -810,6 +845,7 @@ def inline_region(fx, root_key, depth=4, policy=None, desugar=True):
 _DESUGAR = {
     "std::iter::Extend::extend": "extend",
     "std::iter::Iterator::collect": "collect",
+    "std::iter::Iterator::count": "count",
     "std::iter::Iterator::for_each": "for_each", "std::iter::Iterator::any": "any", "std::iter::Iterator::all": "all",
     "std::iter::Iterator::find": "find", "std::iter::Iterator::try_for_each": "try_for_each",
     "std::option::Option::is_some_and": "is_and", "std::result::Result::is_ok_and": "is_and",
